@@ -109,11 +109,12 @@ func asWritten(s apib.Spec, cat int, need set) []string {
 }
 
 // regSets enumerates the registration sets for a description. Deterministic, no repetition.
-//   level 0: exact sets only (both readings, with and without the JSON defaults)
-//   level 1: + every variant of one category with the other three exact,
-//            + the product of the core variants {exact, first omission, first addition} over all four categories,
-//            + single deviations on top of the JSON defaults
-//   level 2: + every pair of categories, full product of their variants
+//
+//	level 0: exact sets only (both readings, with and without the JSON defaults)
+//	level 1: + every variant of one category with the other three exact,
+//	         + the product of the core variants {exact, first omission, first addition} over all four categories,
+//	         + single deviations on top of the JSON defaults
+//	level 2: + every pair of categories, full product of their variants
 func regSets(s apib.Spec, level int) []Reg {
 	n := computeNeeds(s)
 	var out []Reg
@@ -162,6 +163,14 @@ func regSets(s apib.Spec, level int) []Reg {
 			}
 		}
 		authExtras := append(n.declared.minus(n.auth[rd]).sorted(), "kx")
+		for _, a := range auth {
+			// scheme names are plain names: a case variant is another name
+			for _, v := range []string{strings.ToUpper(a), strings.ToLower(a)} {
+				if v != a && !n.declared[v] {
+					authExtras = append(authExtras, v)
+				}
+			}
+		}
 		var consCase, prodCase, opsCase [][]string
 		if len(cons) > 0 {
 			consCase = [][]string{mapItems(cons, strings.ToUpper), with(without(cons, 0), mixedCase(cons[0])), mapItems(cons, strings.ToLower)}
@@ -171,7 +180,9 @@ func regSets(s apib.Spec, level int) []Reg {
 		}
 		if len(ops) > 0 {
 			lower := func(o string) string { return opCase(o, strings.ToLower) }
-			mixed := func(o string) string { return opCase(o, func(m string) string { return m[:1] + strings.ToLower(m[1:]) }) }
+			mixed := func(o string) string {
+				return opCase(o, func(m string) string { return m[:1] + strings.ToLower(m[1:]) })
+			}
 			opsCase = [][]string{mapItems(ops, lower), with(without(ops, 0), mixed(ops[0]))}
 		}
 		vs := [4][]variant{
